@@ -405,7 +405,7 @@ Observed observe(const typename F::template SK<K>& sk, Model<K>& m, Rng& r, cons
   typedef decltype(sk.get_sorted_view()) View;
 
   // ---------------------------------------------------------------- sorted view (first = also compare with the iteration)
-  auto check_view = [&](const View& view, bool first, const char* when) {
+  auto check_view = [&](const View& view, bool first, bool with_iteration, const char* when) {
     const std::string w = std::string(" view=") + when;
     C07_CK(view.size() == retained, "sorted_view|size-ne-num_retained", w + " size=" + std::to_string(view.size()));
     IW ve;
@@ -434,7 +434,7 @@ Observed observe(const typename F::template SK<K>& sk, Model<K>& m, Rng& r, cons
       o.distinct_weights = popcount64(wmask) + (odd_w ? 1 : 0);
     }
     // the view shows the same retained (item, weight) multiset as the iterator
-    if (ve.size() == its.size()) {
+    if (with_iteration && ve.size() == its.size()) {
       auto lt = [&cmp](const std::pair<T, uint64_t>& a, const std::pair<T, uint64_t>& b) {
         if (TT::total_less(cmp, a.first, b.first)) return true;
         if (TT::total_less(cmp, b.first, a.first)) return false;
@@ -601,19 +601,19 @@ Observed observe(const typename F::template SK<K>& sk, Model<K>& m, Rng& r, cons
     for (unsigned gi = 0; gi < 3; ++gi) {
       if (gi == view0_at) {
         view0.reset(new View(sk.get_sorted_view()));
-        check_view(*view0, true, "taken-before-queries");
+        check_view(*view0, true, true, "taken-before-queries");
         if (!ranked) view_based_before_first_rank = true; else if (view_based_before_first_rank) view_after_rank_after_view = true;
       }
       run_group(perm[gi], true);
     }
-    check_view(*view0, false, "earlier-view-rechecked-after-queries");
+    check_view(*view0, false, false, "earlier-view-rechecked-after-queries");
     view1.reset(new View(sk.get_sorted_view()));
-    check_view(*view1, false, "taken-after-first-pass");
+    check_view(*view1, false, false, "taken-after-first-pass");
     shuffle3();
     for (unsigned gi = 0; gi < 3; ++gi) run_group(perm[gi], false);
     run_group(1 + static_cast<int>(r.below(2)), false);      // a view-based group always comes last, after every get_rank
-    check_view(*view0, false, "earlier-view-rechecked-at-end");
-    check_view(*view1, false, "second-view-rechecked-at-end");
+    check_view(*view0, false, true, "earlier-view-rechecked-at-end");
+    check_view(*view1, false, false, "second-view-rechecked-at-end");
     if (!est) fcount(fam, "obs_exact_mode");
     if (view_after_rank_after_view) {
       fcount(fam, "obs_view_query_after_rank_after_view_query");
@@ -1112,7 +1112,7 @@ void run_one(uint64_t idx, Rng& r, uint64_t ntypes) {
 #define VF_C07_TYPESET 3
 #endif
 inline uint64_t num_types() { return VF_C07_TYPESET == 0 ? 3 : (VF_C07_TYPESET == 1 ? 2 : (VF_C07_TYPESET == 2 ? 2 : 7)); }
-inline uint64_t cases_per_type(bool thorough) { return VF_C07_TYPESET == 2 ? (thorough ? 8000 : 1200) : (thorough ? 15000 : 2000); }
+inline uint64_t cases_per_type(bool thorough) { return VF_C07_TYPESET == 2 ? (thorough ? 8000 : 1000) : (thorough ? 15000 : 1600); }
 
 template<typename F>
 void run_case_any(uint64_t idx, Rng& r) {
